@@ -43,6 +43,12 @@ CLAIMED = {
  "C15": ("model_checking", "5 C15",
    "Context.tla transcribes ContextTracker (per-manager depth counter and depth->saved dict, enter/exit/decorator, turn_memory_guarding_*). TLC checks ScopedRestore / EnterSets / DepthConsistent / DefaultOutside exhaustively to nesting depth 7 (~670k states); every behaviour of bounded length is replayed with real with-blocks, decorators and raising bodies, comparing both switches after every event; programs executed inside random nestings are validated against Ref.tla (untracked ops record nothing, keep gradients, write in place; backward is a no-op).",
    "explicit TLA+ mechanism model checked exhaustively with TLC; every enumerated behaviour replayed on the implementation; trace validation of programs run inside scopes"),
+ "C03": ("model_checking", "5 C03",
+   "tables/Promote.tla states NumPy's NEP-50 promotion (arrays strong, Python scalars weak) and the per-operation dtype rules, checks the table's own sanity (commutativity, never narrower, weak scalars keep precision) and enumerates the configuration space: 7 binary ufuncs x 6 array dtypes x 9 operand kinds x side x shape x layout, keyword options (where / out / dtype and their combinations), 16 unary ufuncs, 9 reductions x axis/keepdims options, 15 data-movement functions x 4 memory layouts, matmul / einsum / where. Every cell is evaluated by MyGrad with tracking on, by MyGrad under no_autodiff and by NumPy on the raw arrays; values must be bit-identical, shapes and dtypes equal, and the dtype equal to the table's.",
+   "explicit TLA+ decision table checked with TLC (exhaustive enumeration); every cell executed three ways (MyGrad tracked / untracked / NumPy)"),
+ "C11": ("model_checking", "5 C11",
+   "tables/Dispatch.tla lists, per operation, the spellings that must be one operation (MyGrad function, NumPy function/ufunc on tensors, method, operator, reflected and augmented operator, out= and where=+out= forms), the operand-kind combinations and argument cases, and the kind of result (Tensor / plain ndarray for boolean and non-differentiable functions / ValueError for the rounding-modulo family on non-constant tensors, wherever the tensor stands). All spellings of each of the ~1300 cells are executed on freshly built identical operands and compared in value, dtype, shape, constant flag and gradients; registered names without a table row are listed in the evidence.",
+   "explicit TLA+ decision table checked with TLC (exhaustive enumeration); all spellings of every cell executed and compared"),
  "C16": ("model_checking", "5 C16",
    "tables/Layers.tla: transcription of sliding_window_view's guards and stride arithmetic and of the acceptance logic of conv_nd / max_pool next to the documented validity predicate and the documented formulas. TLC enumerates every configuration within the bounds (1-D and 2-D windows, leading dims, stride, padding, dilation), proves InBounds / Formula / AcceptsExactly / ConvAcceptsExactly on the table and emits the expected outcome; the harness executes every configuration twice (contiguous and strided input) and compares accept/reject, shape, read-only flag, memory bounds and every output value exactly. Softmax / losses / batchnorm / GRU numerics are outside the table (DESIGN section 9).",
    "explicit TLA+ decision table checked with TLC (exhaustive enumeration); every configuration executed on the implementation"),
